@@ -47,7 +47,7 @@ func init() {
 	register("C13", "T-push T-nm", nil, rule{name: "P-codec", run: rulePCodec}, rule{name: "T-push", run: ruleTPush}, rule{name: "T-nm", run: ruleTNm}, rule{name: "T-op1", run: ruleTOp}, rule{name: "ACC-parse", run: ruleACCParse})
 	register("C01", "W-tx T-vi ACC", nil, rule{name: "W-tx", run: ruleWTx}, rule{name: "W-rd", run: ruleWRd}, rule{name: "T-vi", run: ruleTVi}, rule{name: "ACC", run: ruleACC})
 	register("C17", "T-fmt S-disp", nil, rule{name: "T-fmt", run: ruleTFmt}, rule{name: "S-disp", run: ruleSDisp})
-	register("C15", "S-chk T-ver", nil, rule{name: "S-chk", run: ruleSChk}, rule{name: "T-ver", run: ruleTVer}, rule{name: "T-tmpl", run: ruleTTmplScripts}, rule{name: "S-carry", run: ruleSCarry})
+	register("C15", "S-chk T-ver", nil, rule{name: "S-chk", run: ruleSChk}, rule{name: "T-ver", run: ruleTVer}, rule{name: "T-tmpl", run: ruleTTmplScripts}, rule{name: "S-carry", run: ruleSCarry}, rule{name: "W-addr", run: ruleWAddr})
 	register("C19", "O-fresh S-arg S-nobr S-order S-fan", nil, rule{name: "O-fresh", run: ruleOFreshState}, rule{name: "S-arg", run: ruleSDebugArg}, rule{name: "S-nobr", run: ruleSNoBranch}, rule{name: "S-order", run: ruleSOrder}, rule{name: "S-fan", run: ruleSFan})
 	register("C12", "S-fund G-map O-pure", nil, rule{name: "S-fund", run: ruleSFund}, rule{name: "G-map", run: ruleGMapFromUTXOs}, rule{name: "G-lin", run: ruleGDeficit}, rule{name: "G-sum", run: ruleGSum})
 	register("C11", "G-size G-fee G-pred P-est T-tmpl G-sum", nil, rule{name: "G-size", run: ruleGSize}, rule{name: "G-fee", run: ruleGFee}, rule{name: "G-pred", run: ruleGPred}, rule{name: "P-est", run: rulePEst}, rule{name: "G-sum", run: ruleGSum}, rule{name: "T-tmpl", run: ruleTTmplScripts})
